@@ -64,13 +64,35 @@ def signature(v: dict) -> str:
 # --------------------------------------------------------------------------------------
 
 
+def _job_iter(jobs):
+    """jobs: a list of (index, seed, replay, keep_log, extra) or a plan dict for a long-lived worker:
+    {start, stride, max_index, deadline (time.monotonic), seed_parts (VERIF_SEED, check name), vectors}.
+    Index i < len(vectors) is the i-th enumerated fault vector, the rest are seeded samples."""
+    if isinstance(jobs, list):
+        yield from jobs
+        return
+    i = jobs["start"]
+    vectors = jobs.get("vectors") or []
+    base, name = jobs["seed_parts"]
+    while i < jobs["max_index"]:
+        # enumerated vectors are always run; sampling stops at the deadline
+        if i < len(vectors):
+            if time.monotonic() > jobs["hard_deadline"]:
+                return
+            yield (i, derive_seed(base, name, "vec", i), None, False, {"vector": vectors[i]})
+        else:
+            if time.monotonic() > jobs["deadline"]:
+                return
+            yield (i, derive_seed(base, name, i - len(vectors)), None, False, None)
+        i += jobs["stride"]
+
+
 def _child_run_batch(check, jobs, out_path, run_timeout):
-    """jobs: list of (index, seed | None, replay_choices | None, keep_log, extra).  Results are appended to
-    out_path one JSON line per run as soon as each run ends, so a run that hangs (and gets the worker
-    killed by its alarm) only loses itself."""
+    """Results are appended to out_path one JSON line per run as soon as each run ends, so a run that
+    hangs (and gets the worker killed by its alarm) only loses itself."""
     faulthandler.enable()
     with open(out_path, "w") as f:
-        for (idx, seed, replay, keep_log, extra) in jobs:
+        for (idx, seed, replay, keep_log, extra) in _job_iter(jobs):
             signal.alarm(int(run_timeout))
             t0 = time.perf_counter()
             try:
@@ -85,6 +107,8 @@ def _child_run_batch(check, jobs, out_path, run_timeout):
             signal.alarm(0)
             r["index"] = idx
             r["seed"] = seed
+            if extra and "vector" in extra:
+                r.setdefault("vector", extra["vector"])
             r["wall"] = time.perf_counter() - t0
             f.write(json.dumps(r, default=_json_default) + "\n")
             f.flush()
@@ -108,6 +132,7 @@ class Pool:
         self.scratch = _scratch()
         self.inflight = {}  # pid -> (out_path, jobs, started)
         self.requeue = []  # jobs of a batch whose worker died before reaching them
+        self.respawn = []  # plans of long-lived workers that died and must be replaced
         self.seq = 0
 
     def submit(self, jobs):
@@ -157,6 +182,17 @@ class Pool:
             except Exception:  # noqa: BLE001
                 pass
             os.unlink(out)
+        died = not (os.WIFEXITED(status) and os.WEXITSTATUS(status) == 0)
+        if isinstance(jobs, dict):
+            if died:
+                why = f"child died (status {status})"
+                if os.WIFSIGNALED(status) and os.WTERMSIG(status) == signal.SIGALRM:
+                    why = f"run exceeded the wall timeout of {self.run_timeout}s"
+                nxt = (res[-1]["index"] + jobs["stride"]) if res else jobs["start"]
+                res.append({"index": nxt, "seed": None, "harness_error": why, "wall": 0.0})
+                # the worker is replaced; it continues behind the run that killed it
+                self.respawn.append(dict(jobs, start=nxt + jobs["stride"]))
+            return res
         if len(res) < len(jobs):
             why = f"child died (status {status})"
             if os.WIFSIGNALED(status) and os.WTERMSIG(status) == signal.SIGALRM:
@@ -379,40 +415,19 @@ def run_check(check, tier="quick", seed=None, budget_s=None, njobs=None, max_run
                     ent["v"] = v
 
     try:
-        idx = 0
         deadline = t_start + budget_s
-        # enumerated part
-        pending_vec = list(enumerate(vectors)) if vectors else []
-        batch = []
-        while True:
-            now = time.monotonic()
-            stop = (idx >= max_runs) or (now > deadline and not pending_vec)
-            if stop:
-                break
-            # hard stop at 1.5x budget even for the enumerated part
-            if now > t_start + 1.5 * budget_s + 30:
-                break
-            batch = []
-            while pool.requeue and len(batch) < runs_per_fork:
-                batch.append(pool.requeue.pop(0))
-            for _ in range(runs_per_fork - len(batch)):
-                if pending_vec:
-                    vi, vec = pending_vec.pop(0)
-                    batch.append((idx, derive_seed(seed, check.name, "vec", vi), None, False, {"vector": vec}))
-                else:
-                    if idx >= max_runs:
-                        break
-                    batch.append((idx, derive_seed(seed, check.name, idx), None, False, None))
-                idx += 1
-            if not batch:
-                break
-            while pool.full():
-                absorb(pool.reap(True))
-            pool.submit(batch)
-        absorb(pool.drain())
-        while pool.requeue:
-            pool.submit([pool.requeue.pop(0)])
-            absorb(pool.drain())
+        nvec = len(vectors) if vectors else 0
+        max_index = nvec + max_runs if max_runs < 10**9 else 10**9
+        # one long-lived worker per job slot, each taking every njobs-th index until the deadline
+        # (a worker keeps its heap warm; forking per run is kept for replay and minimisation only)
+        for wk in range(njobs):
+            pool.submit(dict(start=wk, stride=njobs, max_index=max_index, deadline=deadline,
+                             hard_deadline=t_start + 1.5 * budget_s + 30, seed_parts=(seed, check.name),
+                             vectors=vectors or []))
+        while pool.inflight:
+            absorb(pool.reap(True))
+            while pool.respawn:
+                pool.submit(pool.respawn.pop(0))
     finally:
         pool.close()
 
